@@ -9,10 +9,17 @@
      calculate_chunk_decomposition                                      operations.py:480-487
      ordered_map_valid_indexed_stream / ordered_map_valid_indexed_partial   operations.py:490-615
 
-   Two versions of the drivers are kept side by side (`version`):
-     Orig   the code as found at the pinned commit (defects F-C04a, F-C04b, F-C04c, F-C04d, F-C12b);
-     Fixed  the code after work/C04/fix-F-C04a.diff, fix-F-C04b.diff, fix-F-C04d.diff, fix-F-C12b.diff.
-   The numba kernels are identical in both versions except safe_map_values (one line, F-C04d).
+   Three versions are kept side by side (`version`):
+     Orig    the code as found at the pinned commit (defects F-C04a, F-C04b, F-C04c, F-C04d, F-C12b, F-C02f);
+     Fixed0  the code after work/C04/fix-F-C04a.diff, fix-F-C04b.diff, fix-F-C04d.diff, fix-F-C12b.diff
+             (still F-C02f: correct only for maps whose valid entries are non-decreasing);
+     Fixed   the code after work/E7/fix-F-C02f.diff as well: get_valid_value_extents returns the
+             min/max of the valid entries, next_map_subchunk splits on the span max-min,
+             ordered_map_valid_indexed_partial asks for another value sub-chunk when the entry lies
+             BELOW the current one too, and the indexed driver seeks the value sub-chunk that holds
+             the entry instead of stepping to the next one.
+   Orig and Fixed0 share the numba kernels except safe_map_values (one line, F-C04d); the three
+   kernels changed by fix-F-C02f have a second definition (suffix 2) selected by `Fixed`.
 
    Element type: the non-indexed functions are polymorphic in the element type A (Z for
    numeric/bool columns, list Z = bytes for fixed strings).  `empty` is the element numpy's
@@ -27,7 +34,10 @@ From EV Require Import Res Arr.
 Import ListNotations.
 Open Scope Z_scope.
 
-Inductive version : Type := Orig | Fixed.
+Inductive version : Type := Orig | Fixed0 | Fixed.
+
+(* the kernels of fix-F-C02f *)
+Definition span_kernels (ver:version) : bool := match ver with Fixed => true | _ => false end.
 
 Definition INVALID_INDEX_32 : Z := 2147483647.
 Definition INVALID_INDEX_64 : Z := 4611686018427387904.
@@ -104,6 +114,30 @@ Definition get_valid_value_extents (chunk:list Z) (start end_ inv:Z) : res (Z * 
     do last <- gve_last (S (Z.to_nat (end_ - start))) chunk (end_ - 1) i inv;
     Ok (first, last).
 
+(* after fix-F-C02f:
+     first = invalid; last = invalid
+     for i in range(start, end):
+         if chunk[i] != invalid:
+             if first == invalid: first = chunk[i]; last = chunk[i]
+             else: first = min(first, chunk[i]); last = max(last, chunk[i]) *)
+Fixpoint gve2_loop (n:nat) (chunk:list Z) (i inv first last:Z) : res (Z * Z) :=
+  match n with
+  | O => Ok (first, last)
+  | S n' =>
+    do v <- get 113 chunk i;
+    if negb (v =? inv) then
+      if first =? inv then gve2_loop n' chunk (i + 1) inv v v
+      else gve2_loop n' chunk (i + 1) inv (Z.min first v) (Z.max last v)
+    else gve2_loop n' chunk (i + 1) inv first last
+  end.
+
+Definition get_valid_value_extents2 (chunk:list Z) (start end_ inv:Z) : res (Z * Z) :=
+  gve2_loop (Z.to_nat (end_ - start)) chunk start inv inv inv.
+
+Definition get_valid_value_extents_v (ver:version) (chunk:list Z) (start end_ inv:Z) : res (Z * Z) :=
+  if span_kernels ver then get_valid_value_extents2 chunk start end_ inv
+  else get_valid_value_extents chunk start end_ inv.
+
 (* ---- next_map_subchunk (kernel): operations.py:387-400 -------------------------- *)
 Fixpoint nms_skip (fuel:nat) (map_:list Z) (sm inv:Z) : res Z :=
   match fuel with
@@ -130,6 +164,28 @@ Definition next_map_subchunk (map_:list Z) (sm inv cs:Z) : res Z :=
   do start <- (if sm1 <? len map_ then get 102 map_ sm1 else Ok (-1));
   nms_span (S (length map_)) map_ sm1 start cs.
 
+(* after fix-F-C02f: one loop; the first valid entry opens the span [lo, hi], a later valid entry
+   that would stretch it to chunksize or more ends the sub-chunk, invalid entries never do *)
+Fixpoint nms2_loop (fuel:nat) (map_:list Z) (sm inv cs:Z) (found:bool) (lo hi:Z) : res Z :=
+  match fuel with
+  | O => OutOfFuel
+  | S f =>
+    if sm <? len map_ then
+      do v <- get 104 map_ sm;
+      if negb (v =? inv) then
+        if negb found then nms2_loop f map_ (sm + 1) inv cs true v v
+        else if Z.max hi v - Z.min lo v >=? cs then Ok sm
+             else nms2_loop f map_ (sm + 1) inv cs true (Z.min lo v) (Z.max hi v)
+      else nms2_loop f map_ (sm + 1) inv cs found lo hi
+    else Ok sm
+  end.
+
+Definition next_map_subchunk2 (map_:list Z) (sm inv cs:Z) : res Z :=
+  nms2_loop (S (length map_)) map_ sm inv cs false inv inv.
+
+Definition next_map_subchunk_v (ver:version) (map_:list Z) (sm inv cs:Z) : res Z :=
+  if span_kernels ver then next_map_subchunk2 map_ sm inv cs else next_map_subchunk map_ sm inv cs.
+
 (* ---- get_map_subchunks_based_on_index_lengths: operations.py:403-410 ------------
    Orig ignores its `invalid` argument and passes the literal -1 (F-C04a). *)
 Fixpoint subchunks_loop (fuel:nat) (ver:version) (map_:list Z) (inv cs sm:Z) : res (list (Z * Z)) :=
@@ -137,7 +193,7 @@ Fixpoint subchunks_loop (fuel:nat) (ver:version) (map_:list Z) (inv cs sm:Z) : r
   | O => OutOfFuel
   | S f =>
     if sm <? len map_ then
-      do next_sm <- next_map_subchunk map_ sm (match ver with Orig => -1 | Fixed => inv end) cs;
+      do next_sm <- next_map_subchunk_v ver map_ sm (match ver with Orig => -1 | _ => inv end) cs;
       do rest <- subchunks_loop f ver map_ inv cs next_sm;
       Ok ((sm, next_sm) :: rest)
     else Ok []
@@ -169,7 +225,7 @@ Definition safe_map_values (ver:version) (data:list A) (map_:list Z) (flt:list b
   : res (list A) :=
   let result := map (fun _ => empty) map_ in
   do ev <- match empty_value with
-           | None => match ver with Orig => get 200 result 0 | Fixed => Ok empty end
+           | None => match ver with Orig => get 200 result 0 | _ => Ok empty end
            | Some e => Ok e
            end;
   smv_loop (length map_) data map_ flt 0 ev result.
@@ -212,11 +268,11 @@ Definition stream_subchunk (ver:version) (data:list A) (map_:list Z) (inv:Z)
            (result_data:list A) (sc:Z * Z) : res (list A) :=
   let sm_start := fst sc in
   let sm_end := snd sc in
-  do '(first, last) <- get_valid_value_extents map_ sm_start sm_end inv;
+  do '(first, last) <- get_valid_value_extents_v ver map_ sm_start sm_end inv;
   if first =? inv then
     match ver with
     | Orig => Ok (map (fun _ => zfill) result_data)                    (* result_data.fill(0) *)
-    | Fixed => Ok (np_slice_fill result_data sm_start sm_end empty)     (* result_data[sm_start:sm_end] = empty_value *)
+    | _ => Ok (np_slice_fill result_data sm_start sm_end empty)         (* result_data[sm_start:sm_end] = empty_value *)
     end
   else
     let values := np_slice data first (last + 1) in
@@ -331,7 +387,8 @@ Fixpoint copy_bytes (n:nat) (values:list Z) (v:Z) (rval:list Z) (rv:Z) : res (li
     copy_bytes n' values (v + 1) rval' (rv + 1)
   end.
 
-Fixpoint oi_partial_loop (fuel:nat) (sm_values:list Z) (sm_end:Z) (indices:list Z) (i_max:Z)
+(* chk_lo = true after fix-F-C02f: `if i < i_start or i >= i_max` instead of `if i >= i_max` *)
+Fixpoint oi_partial_loop (fuel:nat) (chk_lo:bool) (sm_values:list Z) (sm_end:Z) (indices:list Z) (i_start i_max:Z)
          (values:list Z) (mv_start inv v_offset:Z) (s:ipst) : res ipst :=
   match fuel with
   | O => OutOfFuel
@@ -340,11 +397,11 @@ Fixpoint oi_partial_loop (fuel:nat) (sm_values:list Z) (sm_end:Z) (indices:list 
       do mv <- get 131 sm_values (p_sm s);
       if mv =? inv then
         do ridx <- set 132 (p_ridx s) (p_ri s) (p_acc s);
-        oi_partial_loop f sm_values sm_end indices i_max values mv_start inv v_offset
+        oi_partial_loop f chk_lo sm_values sm_end indices i_start i_max values mv_start inv v_offset
           (mk_ipst (p_sm s + 1) (p_ri s + 1) (p_rv s) (p_acc s) (p_need s) ridx (p_rval s))
       else
         let i := mv - mv_start in
-        if i >=? i_max then
+        if (chk_lo && (i <? i_start)) || (i >=? i_max) then
           Ok (mk_ipst (p_sm s) (p_ri s) (p_rv s) (p_acc s) true (p_ridx s) (p_rval s))
         else
           do a <- get 133 indices i;
@@ -356,16 +413,16 @@ Fixpoint oi_partial_loop (fuel:nat) (sm_values:list Z) (sm_end:Z) (indices:list 
             do '(rval, rv) <- copy_bytes (Z.to_nat (v_end - v_start)) values v_start (p_rval s) (p_rv s);
             let acc := p_acc s + (v_end - v_start) in
             do ridx <- set 135 (p_ridx s) (p_ri s) acc;
-            oi_partial_loop f sm_values sm_end indices i_max values mv_start inv v_offset
+            oi_partial_loop f chk_lo sm_values sm_end indices i_start i_max values mv_start inv v_offset
               (mk_ipst (p_sm s + 1) (p_ri s + 1) rv acc (p_need s) ridx rval)
     else Ok s
   end.
 
-Definition ordered_map_valid_indexed_partial (sm_values:list Z) (sm_start sm_end:Z) (indices:list Z)
+Definition ordered_map_valid_indexed_partial (chk_lo:bool) (sm_values:list Z) (sm_start sm_end:Z) (indices:list Z)
            (i_start i_max:Z) (values:list Z) (mv_start:Z) (ridx rval:list Z) (inv sm ri rv acc:Z)
   : res ipst :=
   do v_offset <- get 130 indices i_start;
-  oi_partial_loop (S (Z.to_nat (sm_end - sm))) sm_values sm_end indices i_max values mv_start inv v_offset
+  oi_partial_loop (S (Z.to_nat (sm_end - sm))) chk_lo sm_values sm_end indices i_start i_max values mv_start inv v_offset
                   (mk_ipst sm ri rv acc false ridx rval).
 
 (* ---- ordered_map_valid_indexed_stream: operations.py:490-568 --------------------- *)
@@ -378,6 +435,27 @@ Definition fetch_values (d_val indices_:list Z) (sc:Z * Z) : res (list Z) :=
   do b <- np_get indices_ (snd sc);
   Ok (np_slice d_val a b).
 
+(* after fix-F-C02f:  i = map_[sm] - i_limits[0]
+                       while i >= sub_chunks[s][1]: s += 1
+                       while i < sub_chunks[s][0]: s -= 1 *)
+Fixpoint seek_up (fuel:nat) (subs:list (Z * Z)) (i s:Z) : res Z :=
+  match fuel with
+  | O => OutOfFuel
+  | S f => do sc <- list_get subs s; if i >=? snd sc then seek_up f subs i (s + 1) else Ok s
+  end.
+
+Fixpoint seek_down (fuel:nat) (subs:list (Z * Z)) (i s:Z) : res Z :=
+  match fuel with
+  | O => OutOfFuel
+  | S f => do sc <- list_get subs s; if i <? fst sc then seek_down f subs i (s - 1) else Ok s
+  end.
+
+Definition seek_subchunk (subs:list (Z * Z)) (map_:list Z) (sm first s:Z) : res Z :=
+  do mv <- np_get map_ sm;
+  let i := mv - first in
+  do s1 <- seek_up (S (length subs)) subs i s;
+  seek_down (S (S (2 * length subs))) subs i s1.
+
 (* while sm < sm_end: … *)
 Fixpoint isub_loop (fuel:nat) (ver:version) (map_:list Z) (sm_start sm_end:Z) (indices_:list Z)
          (subs:list (Z * Z)) (d_val:list Z) (first inv:Z)
@@ -386,18 +464,19 @@ Fixpoint isub_loop (fuel:nat) (ver:version) (map_:list Z) (sm_start sm_end:Z) (i
   | O => OutOfFuel
   | S f =>
     if sm <? sm_end then
-      do p <- ordered_map_valid_indexed_partial map_ sm_start sm_end indices_ (fst sc) (snd sc) values_
+      do p <- ordered_map_valid_indexed_partial (span_kernels ver) map_ sm_start sm_end indices_ (fst sc) (snd sc) values_
                 first (s_ridx st) (s_rval st) inv sm (s_ri st) (s_rv st) (s_acc st);
       (* Fixed (fix-F-C12b): no entry consumed and no new sub-chunk requested = the entry does
          not fit the value buffer: raise instead of spinning *)
-      if (match ver with Orig => false | Fixed => (p_sm p =? sm) && negb (p_need p) end)
+      if (match ver with Orig => false | _ => (p_sm p =? sm) && negb (p_need p) end)
       then Raise E_ValueError
       else
         do '(s', sc', values') <-
            (if p_need p then
-              do sc1 <- list_get subs (s + 1);
+              do s1 <- (if span_kernels ver then seek_subchunk subs map_ (p_sm p) first s else Ok (s + 1));
+              do sc1 <- list_get subs s1;
               do v1 <- fetch_values d_val indices_ sc1;
-              Ok (s + 1, sc1, v1)
+              Ok (s1, sc1, v1)
             else Ok (s, sc, values_));
         let '(ri1, out_i1) :=
             if p_ri p >? 0 then (0, s_out_i st ++ np_slice (p_ridx p) 0 (p_ri p)) else (p_ri p, s_out_i st) in
@@ -413,8 +492,8 @@ Definition istream_subchunk (kfuel:nat) (ver:version) (d_idx d_val:list Z) (map_
            (st:ist) (smc:Z * Z) : res ist :=
   let sm_start := fst smc in
   let sm_end := snd smc in
-  do '(first, last) <- get_valid_value_extents map_ sm_start sm_end inv;
-  if first =? (match ver with Orig => -1 | Fixed => inv end) then
+  do '(first, last) <- get_valid_value_extents_v ver map_ sm_start sm_end inv;
+  if first =? (match ver with Orig => -1 | _ => inv end) then
     (* result_indices.fill(ri_accum); result_field.indices.write(result_indices[:sm_end - sm_start]) *)
     let ridx := map (fun _ => s_acc st) (s_ridx st) in
     Ok (mk_ist (s_ri st) (s_rv st) (s_acc st) ridx (s_rval st)
